@@ -249,8 +249,14 @@ def check(run):
         sig.add((c["kind"], c["prov"], c["allow"], o.get("scheme"), top, var, out))
         shapes[top] = shapes.get(top, 0) + 1
         outcomes[out] = outcomes.get(out, 0) + 1
+    # accepted RP IDs that are not in canonical (lower-case ASCII) form: the library decides "public suffix" on the bytes
+    # as given, so e.g. an Android origin with RP ID "CO.UK" or a Unicode-form IDN suffix is accepted (DESIGN C01, Partial)
+    noncanon = [(c, o) for c, o in kept if "ok" in o.get("res", {}) and
+                (lambda r: any(x >= 128 or 65 <= x <= 90 for x in r))(bytes.fromhex(o["res"]["ok"]))]
     n_lem = common.count_lemmas(COQ_FILES)
     run.cov.update({
+        "accepted_noncanonical_rp_ids": len(noncanon),
+        "accepted_noncanonical_example": noncanon[0][0] if noncanon else None,
         "obligations": n_lem, "discharged": n_lem if proof_tie is None else 0,
         "checker_cmd": "make -C coq theories/Props/C01.vo (coqc 8.16.1, full .vo build, on top of C10's table_is_list) + hygiene gate + Print Assumptions",
         "trusted_base": ["Coq 8.16.1 kernel, vm_compute", "C10's trusted base (translators psl_table/psl_rules, PslSpec as the algorithm)",
